@@ -27,7 +27,7 @@ def make_spec(g, allow):
         for _ in range(r.choice([1, 2, 3, 12])):
             cfgno = r.choice([1, 1, 2])
             if r.random() < 0.7:
-                v = g.body((), ('cr', 'long') if r.random() < 0.3 else ())
+                v = g.body((), ('cr', 'long', 'crlf') if r.random() < 0.3 else ())
                 if r.random() < 0.15:
                     # tabs, vertical tabs, form feeds: the pretty printer aligns columns; the file holds
                     # the FORMATTED value (asked from the harness: `fmtval`)
@@ -161,6 +161,10 @@ def render(tag, spec):
             if any(l in (b'---', b'/-/-/-/') for l in ls) and not any(ch in c.payload for ch in b'\t\v\f'):
                 # standalone files are never escaped: a `---` line and a `/-/-/-/` line are different values
                 nv = b'\n'.join(b'/-/-/-/' if l == b'---' else (b'---' if l == b'/-/-/-/' else l) for l in ls)
+            elif b'\n' in c.payload and not any(ch in c.payload for ch in b'\t\v\f') and len(ups) % 2 == 0:
+                # the new value differs from the recorded one ONLY in its line endings (CR LF <-> LF):
+                # every byte counts, the file must be replaced
+                nv = c.payload.replace(b'\r\n', b'\n') if b'\r\n' in c.payload else c.payload.replace(b'\n', b'\r\n')
             i = w.add(Call('sasnap', nv).op(cfgno, texec))
             d = w.add('fsdump')
             ups.append((i, d, cfgno, kk[key], nv))
@@ -178,8 +182,49 @@ def render(tag, spec):
             if [k2 for k2, _ in Line(ww.impl[i]).events] != ['L']:
                 return 'op %d: expected one `updated` log' % i
         return decoys_intact(parse_fs(raw))
-    w.add('fsdump', ('update-replaces-wholesale', oracle2))
+    after_upd = w.add('fsdump', ('update-replaces-wholesale', oracle2))
+    # a read-only run: the new values replay; a value that differs from the file ONLY in its line
+    # endings (CR LF <-> LF) is a different value: one failure, nothing written
+    w.add('reset')
+    w.add(mode_line(True, ''))
+    for variant in (False, True):
+        texec += 1
+        w.add('begin %d %s' % (texec, core.hx(name)))
+        it = iter(ups)
+        for cfgno, c in calls:
+            if c.kind != 'sasnap':
+                w.add(c.op(cfgno, texec))
+                continue
+            i, d, _, _, nv = next(it)
+
+            def exp_replay(line, raw, ww, i=i):
+                if [k2 for k2, _ in Line(ww.impl[i]).events] != ['L']:
+                    return None
+                return exp_silent(line, raw, ww)
+            if variant and b'\n' in nv:
+                v3 = nv.replace(b'\r\n', b'\n') if b'\r\n' in nv else nv.replace(b'\n', b'\r\n')
+
+                def exp_rep(line, raw, ww, i=i):
+                    if [k2 for k2, _ in Line(ww.impl[i]).events] != ['L']:
+                        return None
+                    return suites.exp_one_error_no_write(line, raw, ww)
+                w.add(Call('sasnap', v3).op(cfgno, texec), ('line-ending-change-reported', exp_rep))
+            else:
+                w.add(Call('sasnap', nv).op(cfgno, texec), ('updated-value-replays', exp_replay))
+        w.add('end %d' % texec)
+    w.add('fsdump', ('directory-unchanged-by-readonly-run', exp_same_fs(after_upd)))
     return w
+
+
+def fixed_worlds():
+    """values that differ only in their line endings, in both directions, for every phase"""
+    worlds = []
+    vals = [b'a\nb', b'a\r\nb', b'id,name\r\n1,x\r\n', b'id,name\n1,x\n', b'HTTP/1.1 200 OK\r\nContent-Type: text/plain\r\n\r\nhello', b'\n', b'\r\n', b'x\n\ny\r\n']
+    for k, v in enumerate(vals):
+        spec = dict(cfgs=[cfg_line(1, 'snaps'), cfg_line(2, 'x/y', None, '.txt')], execs=[(b'TestEOL', [(1 + k % 2, Call('sasnap', v)), (1, Call('sasnap', b'other'))])],
+                    flags=set(), reps=1 + k % 2, upd=(False, 'true'))
+        worlds.append(render('c19-eol-%d' % k, spec))
+    return worlds
 
 
 def known(w, p):
@@ -193,5 +238,6 @@ def run(ctx):
     n = 100 if ctx.tier == 'quick' else 2500
     worlds = [render('c19-%d' % i, make_spec(g, (('pct',) if g.r.random() < 0.1 else ()) + (('punct',) if g.r.random() < 0.5 else ())))
               for i in range(n)]
+    worlds += fixed_worlds()
     run_suite(ctx, 'match.standalone', worlds, known=known, chunk=100)
     findings.report(ctx, 'C19')
